@@ -2,17 +2,19 @@
 (* Prover-supplied decompositions that are NOT one of the Goldilocks chip's four hints (GlGadgets.tla): gnark's digit hint used
    directly, a hint added by a change, the chip's limb split used outside its canonical range check.  For such a value the
    specification knows only its SHAPE - what the accompanying constraint recomposes - and the generic moves of a prover against
-   that shape.  This module states those moves ("families") on a scaled field (R = 40961, prime, 2^15 < R < 2^16; products stay
+   that shape.  This module states those moves ("families") on a scaled field (R = 46337, prime, 2^15 < R < 2^16, (R-1)^2 < 2^31, and no power of two used as a digit weight has a small inverse; products stay
    below TLC's 32-bit integers) and decides, per set of
    constraints actually imposed, which family yields an accepted witness other than the honest one.  The conformance harness
    (harness/engine ForeignAlternatives, drivers/foreign.go) plays exactly these families against the real code; the foreignself
    driver replays the table below on gnark's own bit decomposition with the corresponding options.
 
-   Shape "digits":  n prover-supplied digits d_0..d_(n-1), constraint  sum d_i 2^i = x  (mod R)          [always]
-                    Boolean      every d_i is 0 or 1                                                   [optional]
+   Shape "digits":  n prover-supplied digits d_0..d_(n-1) of width w, constraint  sum d_i 2^(w i) = x  (mod R)   [always]
+                    (w = 1: gnark's bit decomposition; w > 1: a hash split into 56-bit chunks, a value into 16-bit limbs ...)
+                    Bound        "exact": every d_i < 2^w (w = 1: boolean); "wide": every d_i < 2^(w+2), a bound rounded up   [optional]
                     BelowModulus the digit string, read as an integer, is below R (only matters when 2^n > R)   [optional]
      families   nonbooleanTop   d_0 flipped, the difference put into d_(n-1) with the field inverse of 2^(n-1)
-                topShift        d_(n-1) + 1, d_(n-2) - 2  (every low digit and the sum unchanged)
+                topShift        d_(n-1) + 1, d_(n-2) - 2^w  (every low digit and the sum unchanged)
+                borrow          d_(n-1) - 1, d_(n-2) + 2^w  (w > 1: all digits stay small, one exceeds the radix)
                 allInDigit0     d_0 = x, all other digits 0
                 plusR           the binary digits of x + R (when they fit n digits)
    Shape "split":   prover-supplied (lo, hi), constraint  lo + 2^k hi = x  (mod R)                      [always]
@@ -27,7 +29,8 @@
    some x (TLC finds the x), which is why the harness reports an accepted family as "the value is left to the prover". *)
 EXTENDS Integers, Sequences, SequencesExt, FiniteSets, TLC, Json
 
-CONSTANTS R, NDig, KLo, MHi, EmitTable
+CONSTANTS R, NDig, KLo, MHi, EmitTable,
+          WR, NRad      \* the radix shape: digits of width WR (> 1) - NRad of them stay below R (2^(WR*NRad) < R), NRad + 1 exceed it
 
 Pow2(n) == 2^n
 \* field inverse: a^(R-2) mod R (R prime), by repeated squaring
@@ -35,43 +38,52 @@ RECURSIVE ModExp(_, _)
 ModExp(a, e) == IF e = 0 THEN 1
                 ELSE LET h == ModExp(a, e \div 2) IN IF e % 2 = 0 THEN (h * h) % R ELSE (((h * h) % R) * (a % R)) % R
 Inv(a) == ModExp(a % R, R - 2)
-Bit(x, i) == (x \div Pow2(i)) % 2
-HonestDigits(x, n) == [i \in 0..(n - 1) |-> Bit(x, i)]
-\* the recomposition in the field (reduced at every step: TLC's integers are 32 bits wide) and, for a boolean digit string, its integer value
-Recompose(d, n) == LET RECURSIVE S(_)
-                       S(i) == IF i = n THEN 0 ELSE ((d[i] % R) * (Pow2(i) % R) + S(i+1)) % R
-                   IN S(0)
-AllBool(d, n) == \A i \in 0..(n - 1) : d[i] \in {0, 1}
-IntValue(d, n) == LET RECURSIVE S(_)
-                      S(i) == IF i = n THEN 0 ELSE d[i] * Pow2(i) + S(i+1)
-                  IN S(0)
+\* digit i of x in radix 2^w (w = 1: the bits)
+Digit(x, i, w) == (x \div Pow2(w * i)) % Pow2(w)
+HonestDigits(x, n, w) == [i \in 0..(n - 1) |-> Digit(x, i, w)]
+\* the recomposition in the field (reduced at every step: TLC's integers are 32 bits wide) and, for a bounded digit string, its integer value
+Recompose(d, n, w) == LET RECURSIVE S(_)
+                          S(i) == IF i = n THEN 0 ELSE ((d[i] % R) * (Pow2(w * i) % R) + S(i+1)) % R
+                      IN S(0)
+AllBelow(d, n, b) == \A i \in 0..(n - 1) : d[i] < Pow2(b)
+IntValue(d, n, w) == LET RECURSIVE S(_)
+                         S(i) == IF i = n THEN 0 ELSE d[i] * Pow2(w * i) + S(i+1)
+                     IN S(0)
 
-DigitFamilies == {"nonbooleanTop", "topShift", "allInDigit0", "plusR"}
+\* "borrow" only exists for w > 1 (for bits it is the move topShift read the other way and never within a bound)
+DigitFamilies(w) == {"nonbooleanTop", "topShift", "allInDigit0", "plusR"} \cup (IF w > 1 THEN {"borrow"} ELSE {})
 \* the move of a family against input x (a function 0..n-1 -> 0..R-1), or the honest digits when the move does not apply
-\* +1 or -1 (in the field) put on digit 0, compensated in the top digit
-NbtDelta(h) == IF h[0] = 0 THEN 1 ELSE R - 1
-NbtTop(h, n) == (h[n - 1] + R - ((NbtDelta(h) * Inv(Pow2(n - 1))) % R)) % R
-NonBooleanTop(h, n) == [i \in 0..(n - 1) |-> IF i = 0 THEN 1 - h[0] ELSE IF i = n - 1 THEN NbtTop(h, n) ELSE h[i]]
-TopShift(h, n) == [i \in 0..(n - 1) |-> IF i = n - 1 THEN (h[i] + 1) % R ELSE IF i = n - 2 THEN (h[i] + R - 2) % R ELSE h[i]]
+\* +1 or -1 (in the field) put on digit 0 (its lowest bit flipped), compensated in the top digit
+NbtDelta(h) == IF h[0] % 2 = 0 THEN 1 ELSE R - 1
+NbtTop(h, n, w) == (h[n - 1] + R - ((NbtDelta(h) * Inv(Pow2(w * (n - 1)))) % R)) % R
+NonBooleanTop(h, n, w) == [i \in 0..(n - 1) |-> IF i = 0 THEN (IF h[0] % 2 = 0 THEN h[0] + 1 ELSE h[0] - 1) ELSE IF i = n - 1 THEN NbtTop(h, n, w) ELSE h[i]]
+TopShift(h, n, w) == [i \in 0..(n - 1) |-> IF i = n - 1 THEN (h[i] + 1) % R ELSE IF i = n - 2 THEN (h[i] + R - Pow2(w)) % R ELSE h[i]]
+\* a unit borrowed from the top digit: every digit stays small, the one below the top exceeds the radix
+Borrow(h, n, w) == IF h[n - 1] = 0 THEN h
+                   ELSE [i \in 0..(n - 1) |-> IF i = n - 1 THEN h[i] - 1 ELSE IF i = n - 2 THEN h[i] + Pow2(w) ELSE h[i]]
 AllInDigit0(x, n) == [i \in 0..(n - 1) |-> IF i = 0 THEN x % R ELSE 0]
-DigitMove(f, x, n) ==
-  LET h == HonestDigits(x, n) IN
-  CASE f = "nonbooleanTop" -> NonBooleanTop(h, n)
-    [] f = "topShift"      -> TopShift(h, n)
+DigitMove(f, x, n, w) ==
+  LET h == HonestDigits(x, n, w) IN
+  CASE f = "nonbooleanTop" -> NonBooleanTop(h, n, w)
+    [] f = "topShift"      -> TopShift(h, n, w)
+    [] f = "borrow"        -> Borrow(h, n, w)
     [] f = "allInDigit0"   -> AllInDigit0(x, n)
-    [] f = "plusR"         -> IF x + R < Pow2(n) THEN HonestDigits(x + R, n) ELSE h
+    [] f = "plusR"         -> IF x + R < Pow2(w * n) THEN HonestDigits(x + R, n, w) ELSE h
 
-DigitsAccepted(d, x, n, boolean, belowModulus) ==
-  /\ Recompose(d, n) = x % R
-  /\ boolean => AllBool(d, n)
+\* bound: "none" | "exact" (every digit below 2^w; for w = 1: booleanity) | "wide" (every digit below 2^(w+2): a bound rounded up)
+Bounds(w) == IF w > 1 THEN {"none", "exact", "wide"} ELSE {"none", "exact"}
+DigitsAccepted(d, x, n, w, bound, belowModulus) ==
+  /\ Recompose(d, n, w) = x % R
+  /\ bound = "exact" => AllBelow(d, n, w)
+  /\ bound = "wide" => AllBelow(d, n, w + 2)
   \* the comparison with the modulus is only imposed on a full-width decomposition, and a bitwise comparator is itself a set of
   \* constraints on bits: it fails on digits that are not bits (gnark's MustBeLessOrEqCst; the replay confirms it)
-  /\ (belowModulus /\ Pow2(n) > R) => (AllBool(d, n) /\ IntValue(d, n) < R)
+  /\ (belowModulus /\ Pow2(w * n) > R) => (AllBelow(d, n, w) /\ IntValue(d, n, w) < R)
 
 \* a family "wins" against a constraint set if for some x below the domain bound it is accepted and is not the honest witness
-DigitWins(f, n, boolean, belowModulus) ==
-  \E x \in 0..(IF Pow2(n) < R THEN Pow2(n) - 1 ELSE R - 1) :
-     LET d == DigitMove(f, x, n) IN d # HonestDigits(x, n) /\ DigitsAccepted(d, x, n, boolean, belowModulus)
+DigitWins(f, n, w, bound, belowModulus) ==
+  \E x \in 0..(IF Pow2(w * n) < R THEN Pow2(w * n) - 1 ELSE R - 1) :
+     LET d == DigitMove(f, x, n, w) IN d # HonestDigits(x, n, w) /\ DigitsAccepted(d, x, n, w, bound, belowModulus)
 
 SplitFamilies == {"lowFlipHighSolved", "allInLow", "allInHigh"}
 HonestSplit(x, k) == <<x % Pow2(k), x \div Pow2(k)>>
@@ -91,30 +103,45 @@ SplitWins(f, k, m, boundLo, boundHi) ==
 
 (* ---- what TLC checks (all constant-level) ---------------------------------------------------------------------------------- *)
 ASSUME Pow2(KLo + MHi) <= R
-\* narrow decomposition (2^NDig < R): booleanity alone makes the digits unique
-UniqueDigitsNarrow == \A f \in DigitFamilies : ~DigitWins(f, NDig, TRUE, FALSE)
-\* full-width decomposition (2^16 > R): booleanity AND the comparison with the modulus
-UniqueDigitsFull == \A f \in DigitFamilies : ~DigitWins(f, 16, TRUE, TRUE)
+ASSUME Pow2(NDig) < R /\ Pow2(16) > R
+ASSUME WR > 1 /\ Pow2(WR * NRad) < R /\ Pow2(WR * (NRad + 1)) > R
+\* the (width, number of digits) pairs of the table: bits narrow / full, radix narrow / full
+Shapes == {<<1, NDig>>, <<1, 16>>, <<WR, NRad>>, <<WR, NRad + 1>>}
+Narrow(sh) == Pow2(sh[1] * sh[2]) < R
+\* narrow decomposition: the exact digit bound alone makes the digits unique
+UniqueDigitsNarrow == \A sh \in Shapes : Narrow(sh) => \A f \in DigitFamilies(sh[1]) : ~DigitWins(f, sh[2], sh[1], "exact", FALSE)
+\* full-width decomposition: the exact bound AND the comparison with the modulus
+UniqueDigitsFull == \A sh \in Shapes : ~Narrow(sh) => \A f \in DigitFamilies(sh[1]) : ~DigitWins(f, sh[2], sh[1], "exact", TRUE)
 UniqueSplit == \A f \in SplitFamilies : ~SplitWins(f, KLo, MHi, TRUE, TRUE)
 \* the hazards: each missing constraint is won by the family the harness plays for it
-NoBooleanLoses == /\ DigitWins("nonbooleanTop", NDig, FALSE, FALSE) /\ DigitWins("topShift", NDig, FALSE, FALSE) /\ DigitWins("allInDigit0", NDig, FALSE, FALSE)
-NoModulusLoses == DigitWins("plusR", 16, TRUE, FALSE)
+NoBoundLoses == \A sh \in Shapes : Narrow(sh) =>
+                   /\ DigitWins("nonbooleanTop", sh[2], sh[1], "none", FALSE)
+                   /\ DigitWins("topShift", sh[2], sh[1], "none", FALSE)
+                   /\ DigitWins("allInDigit0", sh[2], sh[1], "none", FALSE)
+\* a digit bound rounded up beyond the radix is lost to the borrow and to "everything in digit 0" (small x), not to the moves that
+\* need a field-sized digit
+WideBoundLoses == /\ DigitWins("borrow", NRad, WR, "wide", FALSE) /\ DigitWins("allInDigit0", NRad, WR, "wide", FALSE)
+                  /\ \A f \in {"nonbooleanTop", "topShift", "plusR"} : ~DigitWins(f, NRad, WR, "wide", FALSE)
+NoModulusLoses == \A sh \in Shapes : ~Narrow(sh) => DigitWins("plusR", sh[2], sh[1], "exact", FALSE)
 NoBoundHiLoses == SplitWins("lowFlipHighSolved", KLo, MHi, TRUE, FALSE) /\ SplitWins("allInHigh", KLo, MHi, TRUE, FALSE)
 NoBoundLoLoses == SplitWins("allInLow", KLo, MHi, FALSE, TRUE)
 ASSUME UniqueDigitsNarrow
 ASSUME UniqueDigitsFull
 ASSUME UniqueSplit
-ASSUME NoBooleanLoses
+ASSUME NoBoundLoses
+ASSUME WideBoundLoses
 ASSUME NoModulusLoses
 ASSUME NoBoundHiLoses
 ASSUME NoBoundLoLoses
 
-\* the table replayed on gnark's bit decomposition: (digits, boolean, belowModulus, family) -> wins
-Table == {[shape |-> "digits", n |-> n, boolean |-> b, belowModulus |-> c, family |-> f, wins |-> DigitWins(f, n, b, c)] :
-            n \in {NDig, 16}, b \in BOOLEAN, c \in BOOLEAN, f \in DigitFamilies}
-   \cup {[shape |-> "split", n |-> KLo, boolean |-> bl, belowModulus |-> bh, family |-> f, wins |-> SplitWins(f, KLo, MHi, bl, bh)] :
+\* the table replayed on real gadgets: (digits of width w, bound, belowModulus, family) -> wins
+Table == {[shape |-> "digits", n |-> sh[2], w |-> sh[1], bound |-> b, boolean |-> (b = "exact"), belowModulus |-> c, family |-> f,
+           wins |-> DigitWins(f, sh[2], sh[1], b, c)] :
+            sh \in Shapes, b \in {"none", "exact", "wide"}, c \in BOOLEAN, f \in {"nonbooleanTop", "topShift", "allInDigit0", "plusR", "borrow"}}
+ValidRow(r) == r.bound \in Bounds(r.w) /\ r.family \in DigitFamilies(r.w)
+SplitTable == {[shape |-> "split", n |-> KLo, w |-> 0, bound |-> "", boolean |-> bl, belowModulus |-> bh, family |-> f, wins |-> SplitWins(f, KLo, MHi, bl, bh)] :
             bl \in BOOLEAN, bh \in BOOLEAN, f \in SplitFamilies}
-ASSUME EmitTable => JsonSerialize("foreign_table.json", SetToSeq(Table))
+ASSUME EmitTable => JsonSerialize("foreign_table.json", SetToSeq({r \in Table : ValidRow(r)} \cup SplitTable))
 
 VARIABLE z
 Init == z = 0
